@@ -550,10 +550,12 @@ impl Recognizer for DurationRecognizer {
                     }
                     ow => Some(Err(ReadError::UnexpectedField(Text::new(ow)))),
                 },
-                ReadEvent::EndRecord => Some(Ok(Duration::new(
-                    self.secs.unwrap_or_default(),
-                    self.nanos.unwrap_or_default(),
-                ))),
+                ReadEvent::EndRecord => {
+                    // `Duration::new` panics when the carry from the nanoseconds overflows the seconds.
+                    let secs = Duration::from_secs(self.secs.unwrap_or_default());
+                    let nanos = Duration::from_nanos(self.nanos.unwrap_or_default() as u64);
+                    Some(secs.checked_add(nanos).ok_or(ReadError::NumberOutOfRange))
+                }
                 ow => Some(Err(ow.kind_error(ExpectedEvent::Or(vec![
                     ExpectedEvent::ValueEvent(ValueKind::Text),
                     ExpectedEvent::EndOfRecord,
